@@ -101,4 +101,14 @@ val opt_list : node option -> node list
 val build_directives :
   directive list -> node -> node list -> st -> node list * st
 
+val lower_children_with :
+  env -> (node -> st -> node * st) -> node list -> st -> node list * st
+
+val lower_attr_values_with :
+  (node -> st -> node * st) -> node list -> st -> node list * st
+
+val vnode_hints : env -> attrs_result -> node list
+
+val push_slot_flag : env -> st -> st
+
 val lower_el : env -> node -> st -> node * st
